@@ -137,6 +137,7 @@ type RStep struct {
 	Fl   int   `json:"fl"`
 	P    RPkt  `json:"p"`
 	EOF  bool  `json:"eof,omitempty"`
+	HoldSink bool `json:"holdsink,omitempty"` // like hold, but the handler is parked inside the accounting sink, before the record is formatted
 	Hold bool  `json:"hold,omitempty"` // park this request's handler at its first logger call while the following steps of OTHER connections run
 	Pws  []BS  `json:"pws,omitempty"` // passwords carried by this step (labels for C18)
 }
@@ -315,10 +316,36 @@ func (c chanCfg) Config() chan config.ServerConfig { return c.ch }
 type jsonSink struct {
 	rec *Rec
 	mu  sync.Mutex
+	// one-shot gate: the next Printf parks before it formats its arguments (as a logger busy with another writer would)
+	gmu     sync.Mutex
+	parked  chan struct{}
+	release chan struct{}
+}
+
+// ArmGate makes the next Printf park until the returned release channel is closed.
+func (s *jsonSink) ArmGate() (parked, release chan struct{}) {
+	s.gmu.Lock()
+	defer s.gmu.Unlock()
+	s.parked, s.release = make(chan struct{}), make(chan struct{})
+	return s.parked, s.release
+}
+
+func (s *jsonSink) Disarm() {
+	s.gmu.Lock()
+	s.parked, s.release = nil, nil
+	s.gmu.Unlock()
 }
 
 // Printf formats exactly like log.Logger does and records the line together with its JSON decoding.
 func (s *jsonSink) Printf(format string, args ...interface{}) {
+	s.gmu.Lock()
+	p, rel := s.parked, s.release
+	s.parked, s.release = nil, nil
+	s.gmu.Unlock()
+	if p != nil {
+		close(p)
+		<-rel
+	}
 	s.emit(fmt.Sprintf(format, args...), "file")
 }
 
@@ -557,7 +584,7 @@ func (r *refRun) open(c int, addr string, extra E) *refConnState {
 
 func (r *refRun) feed(st *refConnState, s *RStep, i int) bool {
 	closed := r.feed0(st, s, i)
-	if !s.Hold {
+	if !s.Hold && !s.HoldSink {
 		r.drainSyslog()
 	}
 	return closed
@@ -597,7 +624,7 @@ func (r *refRun) feed0(st *refConnState, s *RStep, i int) bool {
 	}
 	r.rec.Emit(E{"e": "feed", "c": st.c, "i": i, "h": B(hdr), "b": B(wire), "cb": B(body), "sk": B(st.key), "pws": pws})
 	st.conn.Feed(append(append([]byte{}, hdr...), wire...))
-	if s.Hold {
+	if s.Hold || s.HoldSink {
 		return false // the caller waits for the gate, not for quiescence
 	}
 	return st.conn.WaitQuiesce()
@@ -654,8 +681,13 @@ func (r *refRun) runScenario(sc *RScen) {
 			held.conn.WaitQuiesce()
 			held = nil
 		}
-		if s.Hold && held == nil {
-			parked, rel := r.log.ArmGate()
+		if (s.Hold || s.HoldSink) && held == nil {
+			var parked, rel chan struct{}
+			if s.HoldSink {
+				parked, rel = r.sink.ArmGate()
+			} else {
+				parked, rel = r.log.ArmGate()
+			}
 			r.feed(st, s, i+1)
 			quiet := make(chan struct{})
 			go func() { st.conn.WaitQuiesce(); close(quiet) }()
@@ -665,11 +697,12 @@ func (r *refRun) runScenario(sc *RScen) {
 				r.rec.Emit(E{"e": "held", "c": st.c})
 			case <-quiet:
 				r.log.Disarm() // this path makes no logger call: nothing to hold
+				r.sink.Disarm()
 			}
 			continue
 		}
 		s2 := *s
-		s2.Hold = false
+		s2.Hold, s2.HoldSink = false, false
 		r.feed(st, &s2, i+1)
 	}
 	if held != nil {
@@ -712,7 +745,9 @@ func (r *refRun) runScenario(sc *RScen) {
 			for i := range sc.Steps {
 				t := &sc.Steps[i]
 				if t.C == s.C && t.Sid == s.Sid && !t.EOF {
-					r.feed(st, t, i+1)
+					t2 := *t
+					t2.Hold, t2.HoldSink = false, false
+					r.feed(st, &t2, i+1)
 				}
 			}
 			if !st.conn.IsClosed() {
